@@ -165,10 +165,12 @@ CHECKS = {
                  "non-trivial = two calls overlapped; distinct = distinct event-log hash"),
         "parts": [
             {"module": "rueidis", "scenario": "cmd-framing", "quick": 6000, "thorough": 300000},
+            {"module": "rueidis", "scenario": "cluster", "variant": "cancel", "quick": 1500, "thorough": 150000},
         ],
         "expected_probes": ["call-abandoned-before-reply", "cancel-during-call"],
         "components": {"real": REAL, "stubs": STUBS},
         "assumptions": [
+            "cluster part (variant cancel): single commands and batches over several nodes are cancelled at seeded steps while their commands sit behind a bounded socket send buffer and a small write buffer; every VKTAG/VWTAG frame a node decodes must be an argv the plan built and no node may see a malformed or emptied frame",
             "claimed for the schedule-dependent clause only (a command is never modified or recycled before it is completely written, even when the caller abandons the call); "
             "the formatting clause (base-10 integers, shortest floats, units) is a pure function of the input and is not decided here",
         ],
@@ -545,10 +547,11 @@ CHECKS = {
                  "callback; non-trivial = at least one session; distinct = distinct event-log hash"),
         "parts": [
             {"module": "rueidis", "scenario": "dedicated", "quick": 6000, "thorough": 500000},
+            {"module": "rueidis", "scenario": "cluster", "variant": "dedicated", "quick": 1200, "thorough": 100000},
         ],
         "expected_probes": ["session-with-hooks", "session-with-inval", "session-with-subscribe"],
         "components": {"real": REAL, "stubs": STUBS},
-        "assumptions": ["single-node front-end (the cluster and sentinel dedicated clients wrap the same wire)", "a session that leaves MULTI open is not part of the property and is not generated"],
+        "assumptions": ["single-node front-end, plus the cluster front-end's dedicated client (cluster part: Dedicate()/Dedicated(fn) sessions of 1-4 keyed commands on one slot, then Do and DoMulti through the retained handle: the session's commands arrive on one connection, calls after release fail with ErrDedicatedClientRecycled and reach no node); the sentinel dedicated client wraps the same wire as the single one", "a session that leaves MULTI open is not part of the property and is not generated"],
     },
     "C29": {
         "level": "fault_enumeration",
